@@ -53,9 +53,10 @@ Record limits := mkLimits {
   max_message_size : N
 }.
 
-(* BusConnectionData, the part that is not in Registry.conn: credentials and
-   the n_match_rules counter *)
-Record cdata := mkCd { d_id : N; d_uid : N; d_nrules : N }.
+(* BusConnectionData, the part that is not in Registry.conn: credentials, the
+   n_match_rules counter, and whether the authentication conversation has ended
+   (DBusTransport.authenticated; nothing in the bus reads it for the limits) *)
+Record cdata := mkCd { d_id : N; d_uid : N; d_nrules : N; d_auth : bool }.
 
 (* BusPendingReply *)
 Record pend := mkPend { p_get : N; p_send : N; p_serial : N }.
@@ -81,6 +82,7 @@ Inductive lerr :=
 (* what a connection receives *)
 Inductive omsg :=
 | OAccepted                       (* the server accepted the socket (authentication can proceed) *)
+| OAuthOk                         (* authentication succeeded *)
 | ONotAccepted                    (* nobody accept()s: the socket stays in the listen backlog *)
 | OReg (m : msg)                  (* Hello / RequestName / ReleaseName replies, NameAcquired, NameLost, NameOwnerChanged *)
 | OAck                            (* empty method return *)
@@ -96,13 +98,16 @@ Definition lout := (N * omsg)%type.
 
 Inductive levent :=
 | Connect (uid : N)                              (* a client with these credentials connects *)
+| Auth (c : N)                                   (* AUTH EXTERNAL ... BEGIN *)
 | Hello (c : N)
 | Disconnect (c : N)                             (* the client closes its socket *)
 | RequestName (c : N) (name : bytes) (flags : N)
 | ReleaseName (c : N) (name : bytes)
 | AddMatch (c : N) (rule : option N)             (* None: text that bus_match_rule_parse rejects *)
 | RemoveMatch (c : N) (rule : option N)
-| Call (c d serial : N) (noreply : bool)         (* method call from c to the unique name of d *)
+| Call (c d serial : N) (noreply : bool) (rserial : N)
+                                                 (* method call from c to the unique name of d; rserial <> 0: it carries
+                                                    a REPLY_SERIAL header field (nothing forbids that) *)
 | Reply (d c serial : N)                         (* method return from d to the unique name of c with that REPLY_SERIAL *)
 | ReplyTimeout (c serial : N)                    (* the expiry timer fires for c's oldest outstanding call with that serial *)
 | Emit (c tag : N)                               (* broadcast signal that rule [tag] (and no other) selects *)
@@ -282,13 +287,22 @@ Definition lstep (L : limits) (s : state) (e : levent) : state * list lout :=
         (* new_connection_callback -> bus_connections_setup_connection *)
         let (b', _) := Registry.step (reg L s) EvConnect in
         (mkState (b_conns b') (b_services b') (b_next b')
-                 (s_cdata s ++ [mkCd (s_next s) uid 0]) (s_rules s) (s_pending s)
+                 (s_cdata s ++ [mkCd (s_next s) uid 0 false]) (s_rules s) (s_pending s)
                  (s_ncomplete s) (s_nincomplete s + 1) (s_byuser s),
          [(s_next s, OAccepted)])
+  | Auth c =>
+      match find_cd (s_cdata s) c with
+      | Some d =>
+          if d_auth d then lfault s c                                 (* after BEGIN the stream carries messages *)
+          else (with_rules s (upd_cd (s_cdata s) c (fun x => mkCd (d_id x) (d_uid x) (d_nrules x) true)) (s_rules s),
+                [(c, OAuthOk)])
+      | None => lfault s c
+      end
   | Hello c =>
       match find_conn (s_conns s) c, find_cd (s_cdata s) c with
       | Some cn, Some d =>
-          if c_active cn then (s, [(c, OErr LFailed)])                 (* "Already handled an Hello message" *)
+          if negb (d_auth d) then lfault s c                          (* no message can be sent before BEGIN *)
+          else if c_active cn then (s, [(c, OErr LFailed)])            (* "Already handled an Hello message" *)
           (* bus_connections_check_limits *)
           else if max_completed_connections L <=? s_ncomplete s then (s, [(c, OErr LLimitsExceeded)])
           else if max_connections_per_user L <=? get_uid (s_byuser s) (d_uid d) then (s, [(c, OErr LLimitsExceeded)])
@@ -314,7 +328,7 @@ Definition lstep (L : limits) (s : state) (e : levent) : state * list lout :=
           else match rule with
                | None => (s, [(c, OErr LMatchRuleInvalid)])
                | Some r =>
-                   (with_rules s (upd_cd (s_cdata s) c (fun x => mkCd (d_id x) (d_uid x) (d_nrules x + 1)))
+                   (with_rules s (upd_cd (s_cdata s) c (fun x => mkCd (d_id x) (d_uid x) (d_nrules x + 1) (d_auth x)))
                                  ((c, r) :: s_rules s),
                     [(c, OAck)])
                end
@@ -330,27 +344,32 @@ Definition lstep (L : limits) (s : state) (e : levent) : state * list lout :=
                    match remove_rule (s_rules s) c r with
                    | None => (s, [(c, OErr LMatchRuleNotFound)])
                    | Some rl =>
-                       (with_rules s (upd_cd (s_cdata s) c (fun x => mkCd (d_id x) (d_uid x) (d_nrules x - 1))) rl,
+                       (with_rules s (upd_cd (s_cdata s) c (fun x => mkCd (d_id x) (d_uid x) (d_nrules x - 1) (d_auth x))) rl,
                         [(c, OAck)])
                    end
                end
       | _, _ => lfault s c
       end
-  | Call c d serial noreply =>
+  | Call c d serial noreply rserial =>
       match find_conn (s_conns s) c with
       | None => lfault s c
       | Some cn =>
           if negb (c_active cn) then disconnect L s c true            (* "Received message from non-registered client" *)
           else if negb (is_active s d) then (s, [(c, OErr LServiceUnknown)])
-          else if noreply then (s, [(d, OCall c serial)])
           else
-            (* bus_connections_expect_reply *)
-            match expect_scan (s_pending s) c d serial 0 with
-            | None => (s, [(c, OErr LAccessDenied)])
-            | Some count =>
-                if max_replies_per_connection L <=? count then (s, [(c, OErr LLimitsExceeded)])
-                else (with_pending s (mkPend c d serial :: s_pending s), [(d, OCall c serial)])
-            end
+            (* bus_context_check_security_policy: a message with a REPLY_SERIAL first goes through
+               bus_connections_check_reply (receiver d, sender c), which unlinks a matching entry;
+               nothing restores it if the message is refused further down *)
+            let pl := if rserial =? 0 then s_pending s else check_reply (s_pending s) d c rserial in
+            if noreply then (with_pending s pl, [(d, OCall c serial)])
+            else
+              (* bus_connections_expect_reply *)
+              match expect_scan pl c d serial 0 with
+              | None => (with_pending s pl, [(c, OErr LAccessDenied)])
+              | Some count =>
+                  if max_replies_per_connection L <=? count then (with_pending s pl, [(c, OErr LLimitsExceeded)])
+                  else (with_pending s (mkPend c d serial :: pl), [(d, OCall c serial)])
+              end
       end
   | Reply d c serial =>
       match find_conn (s_conns s) d with
